@@ -355,6 +355,14 @@ Fixpoint apply_refunds (w : world) (l : list (bool * N)) : option world :=
   | (false, g) :: r => match sub_refund w g with Some w' => apply_refunds w' r | None => None end
   end.
 
+(* l[i] := x (no effect beyond the end) *)
+Fixpoint upd_nth (l : list N) (i : nat) (x : N) : list N :=
+  match l, i with
+  | [], _ => []
+  | _ :: r, O => x :: r
+  | a :: r, S j => a :: upd_nth r j x
+  end.
+
 (* PUSHn immediate: code[pc+1 : pc+1+n] right-padded with zeros (makePush) *)
 Definition push_data (code : list N) (pc : N) (n : nat) : N :=
   bytes_word (get_data code (pc + 1) (N.of_nat n)).
@@ -618,6 +626,24 @@ Definition exec_instr (c : ctx) (f : frame) (i : instr) : frame + fresult :=
       | Some x => next f (x :: firstn n r ++ top :: skipn (S n) r)
       | None => fault_ f F_StackShape
       end
+  | I_DUPN n, r =>
+      match nth_error r n with
+      | Some x => inl (mk_frame (f_pc f + 2) (x :: r) (f_mem f) (f_gas f) (f_ret f) w)
+      | None => fault_ f F_StackShape
+      end
+  | I_SWAPN n, top :: r =>
+      match nth_error r n with
+      | Some x => inl (mk_frame (f_pc f + 2) (x :: firstn n r ++ top :: skipn (S n) r)
+                                (f_mem f) (f_gas f) (f_ret f) w)
+      | None => fault_ f F_StackShape
+      end
+  | I_EXCHANGE n m, r =>
+      match nth_error r n, nth_error r m with
+      | Some a, Some b =>
+          inl (mk_frame (f_pc f + 2) (upd_nth (upd_nth r n b) m a) (f_mem f) (f_gas f) (f_ret f) w)
+      | _, _ => fault_ f F_StackShape
+      end
+  | I_IMMBAD _, _ => halt f E_InvalidOpcode
   | I_LOG n, off :: size :: r =>
       if 2 ^ 64 <=? size then oog f else
       if (length r <? n)%nat then fault_ f F_StackShape else
@@ -679,7 +705,7 @@ Definition get_op (code : list N) (pc : N) : N :=
 
 (* one iteration of the interpreter loop *)
 Definition step (c : ctx) (f : frame) : frame + fresult :=
-  let i := decode (e_fork (c_env c)) (get_op (c_code c) (f_pc f)) in
+  let i := decode (e_fork (c_env c)) (get_op (c_code c) (f_pc f)) (get_op (c_code c) (f_pc f + 1)) in
   let '(pops, pushes) := stack_req i in
   let n := length (f_stack f) in
   if (n <? pops)%nat then halt f E_StackUnderflow
